@@ -41,7 +41,12 @@ func (w *World) Construct(cfg setec.StoreConfig) bool {
 
 // BaseConfig returns a StoreConfig wired to the world's seams.
 func (w *World) BaseConfig(declared []string) setec.StoreConfig {
-	return setec.StoreConfig{Client: w.Svc, Secrets: declared, Logf: w.Logf, TimeNow: w.NowFn, PollTicker: w.Ticker}
+	var client setec.StoreClient = w.Svc
+	if w.UseRealClient {
+		client = w.RealClient()
+	}
+	client = obsClient{w: w, inner: client}
+	return setec.StoreConfig{Client: client, Secrets: declared, Logf: w.Logf, TimeNow: w.NowFn, PollTicker: w.Ticker}
 }
 
 func context_bg() context.Context { return context.Background() }
